@@ -197,6 +197,7 @@ func (c *conn) OnClosed(fn func()) (unsub func(), _ bool) {
 	if id == 0 {
 		// A concurrent close may have invoked the listener before it was removed:
 		// the once-flag tells, and also makes sure a late invocation does nothing.
+		vtr("lc.cas", bin.Bin128{}, 0, 0)
 		if called.CompareAndSwap(false, true) {
 			return nil, false
 		}
